@@ -67,7 +67,7 @@ theorem unionField_denote {rx E fs A ns f c} (hE : EnvOK E fs) (h : unionField r
         · cases h
           simp [resolve_denote hE ht]
 
-theorem setAttributes_ok {st key c st'} (h : setAttributes st key c = .ok st') :
+theorem setAttributes_ok {fu st key c st'} (h : setAttributes fu st key c = .ok st') :
     st' = { st with done := (key, c) :: st.done } := by
   unfold setAttributes at h
   split at h
